@@ -39,6 +39,8 @@ OSP_TOP = [([], [], False),
            (["ordered_subpage: beta.md", "ordered_subpage: beta.md"], ["beta.md"], False),
            (["ordered_subpage: notes.txt", "ordered_subpage: beta.md"], ["notes.txt", "beta.md"], False),
            (["ordered_subpage: beta.md", "ordered_subpage: api_index.md", "ordered_subpage: alpha.md"], ["beta.md", "api_index.md", "alpha.md"], False),
+           # the continuation-line form of a multi-valued key, with trailing blanks (values are stripped)
+           (["ordered_subpage: beta.md", "                 guide  ", "                 alpha.md "], ["beta.md", "guide", "alpha.md"], False),
            (["ordered_subpage: missing.md"], ["missing.md"], True)]
 OSP_GUIDE = [([], []), (["ordered_subpage: zz.md"], ["zz.md"]), (["ordered_subpage: deep", "ordered_subpage: zz.md"], ["deep", "zz.md"])]
 COPY_TOP = [([], []), (["copy_subdir: assets"], ["assets"])]
@@ -57,7 +59,21 @@ class VFS:
     def listdir(self, p):
         p = str(p).rstrip("/")
         names = {k[len(p) + 1:].split("/")[0] for k in self.e if k.startswith(p + "/")}
-        return sorted(names, reverse=True)  # NOT sorted ascending: the code under test must not rely on the OS order
+        # NOT sorted ascending by default: the code under test must not rely on the OS order
+        names = sorted(names)
+        if LISTDIR_ORDER[0] == "descending":
+            names.reverse()
+        elif LISTDIR_ORDER[0] == "rotated":
+            names = names[len(names) // 2:] + names[:len(names) // 2]
+        return names
+
+
+LISTDIR_ORDER = ["descending"]   # "ascending" | "descending" | "rotated": the order in which the stubbed OS enumerates a directory
+
+
+class _Unused:
+    def _(self):
+        return None
 
 
 _FS = [None]
@@ -102,7 +118,8 @@ class _MD:
         return self
 
     def convert(self, text, path=None):
-        return text
+        # the directory the page's relative links are computed from travels with the text (see _observe)
+        return f"{path}\x00{text}"
 
 
 def _tree(E, thorough):
@@ -184,6 +201,16 @@ def _observe(node):
     return out
 
 
+def _conversion_dirs(node, page_root):
+    """[(page path, directory its Markdown was converted for, relative to <output>/page)]: must be the directory the page is written to"""
+    import posixpath
+    out = []
+    for n in node:
+        conv = str(n.contents).split("\x00", 1)[0]
+        out.append((str(n.path), posixpath.relpath(conv, str(page_root)), posixpath.dirname(str(n.path)) or "."))
+    return out
+
+
 def _run(entries, warnings):
     import ford.pagetree as pt
     import ford.utils as fu
@@ -195,7 +222,11 @@ def _run(entries, warnings):
              (pt, "EntitySettings"): _ES(st.EntitySettings)}
     with patch.patched(pt, extra=extra):
         node = pt.get_page_tree(VPath("top"), [], VPath("out"), _MD())
+        _CONV[:] = _conversion_dirs(node, (VPath("out") / "page").resolve()) if node is not None else []
         return _observe(node)
+
+
+_CONV = []
 
 
 class _ES:
@@ -236,8 +267,10 @@ def replay_tree(w):
         try:
             node = pt.get_page_tree(pathlib.Path(d) / "top", [], pathlib.Path(d) / "out", _MD())
             got = _observe(node)
+            conv = _conversion_dirs(node, (pathlib.Path(d) / "out" / "page").resolve()) if node is not None else []
         except ValueError as e:
             got = "ERROR"
+            conv = []
         want = expected_tree(a, b, g, z, osp, ospg, cp)
         norm = lambda t: t if isinstance(t, str) or t is None else [(x[0], x[1], sorted(x[2]) if x[2] is not None else None, list(x[3])) for x in t]
         g_ = norm(got)
@@ -249,7 +282,9 @@ def replay_tree(w):
             for name, has in (("alpha.md", a), ("beta.md", b)):
                 if not has and not any(name in m for m in msgs):
                     unreported.append(name)
-        return g_ != w_ or bool(unreported), {"choices": w["choices"], "ford_tree": g_, "documented_tree": w_, "untitled pages not reported": unreported}
+        wrongdir = [c for c in conv if c[1] != c[2]]
+        return g_ != w_ or bool(unreported) or bool(wrongdir), {"choices": w["choices"], "ford_tree": g_, "documented_tree": w_, "untitled pages not reported": unreported,
+                                                            "pages whose links are computed for another directory (page, used, written to)": wrongdir}
     finally:
         pt.warn = oldw
         shutil.rmtree(d, ignore_errors=True)
@@ -289,6 +324,8 @@ def page_tree(ctx):
                                    want, title), f"page {i}: path / title / hierarchy differ from the documented tree (order matters)")
             E.require(choice.apply(lambda w_, i=i, files=files: w_ == "ERROR" or i >= len(w_) or w_[i][2] is None or sorted(w_[i][2]) == sorted(files), want),
                       f"page {i}: files recorded for copying differ")
+        for pth, used, written in list(_CONV):
+            E.require(used == written, f"the relative links of page {pth} are computed for directory '{used}', the page is written to '{written}'")
         # an untitled page is reported by name
         for name, idx in (("alpha.md", 0), ("beta.md", 1)):
             said = any((choice.apply(lambda m_: name in str(m_), m_) is True) for m_ in warnings)
